@@ -295,8 +295,10 @@ func (m *moduleEngine) DoneInstantiation() {
 // FunctionInstanceReference implements wasm.ModuleEngine.
 func (m *moduleEngine) FunctionInstanceReference(funcIndex wasm.Index) wasm.Reference {
 	if funcIndex < m.module.Source.ImportFunctionCount {
-		begin, _, _ := m.parent.offsets.ImportedFunctionOffset(funcIndex)
-		return uintptr(unsafe.Pointer(&m.opaque[begin]))
+		// The entry of an imported function in this module's opaque has no indexInModule, which
+		// LookupFunction needs: use the function instance of the module which defines the function.
+		imported := &m.importedFunctions[funcIndex]
+		return imported.me.FunctionInstanceReference(imported.indexInModule)
 	}
 	localIndex := funcIndex - m.module.Source.ImportFunctionCount
 	p := m.parent
